@@ -51,7 +51,9 @@ def _choice(script, fn, a, size=None, replace=True, p=None, **kw):
             raise ValueError("probabilities are not non-negative")
         if abs(pp.sum() - 1.0) > 1e-8:
             raise ValueError("probabilities do not sum to 1")
-    support = [i for i in range(n) if pp[i] > 0]
+    # entries whose probability is below 1e-12 (floating-point dust such as |<10|HH|00>|^2 = 1e-34) are never offered: no real
+    # generator would return them within the lifetime of the universe, and offering them would raise false alarms
+    support = [i for i in range(n) if pp[i] > 1e-12]
     k = 1 if size is None else int(size)
     idx = [support[script.choose(len(support))] for _ in range(k)]
     script.calls.append({"fn": fn, "n": n, "size": size, "p": pp.tolist(), "idx": idx})
